@@ -300,12 +300,13 @@ func ruleRGPlumb(p *Prog, r *Reporter) {
 			if isCallTo(c.Common(), "biscuit.newBiscuit") {
 				args := c.Common().Args
 				last := args[len(args)-1]
-				if sliceDependsOn(last, with) {
+				if sliceMustContain(last, with, with.Block()) {
 					flows = true
 				}
 			}
 		}
-		r.Check(flows, p.instrPos(with), p.FuncName(f), "WithRNG", "WithRNG("+spec.src+") is passed to newBiscuit", "the WithRNG option is built but not passed to newBiscuit")
+		r.Check(flows, p.instrPos(with), p.FuncName(f), "WithRNG", "WithRNG("+spec.src+") is in newBiscuit's option list on every path from its construction", "the WithRNG option is built but is not in newBiscuit's option list on every path (dropped or overwritten by a later option): the caller's random source is not used")
+		r.Check(onlyNilGuards(p, with.Block(), spec.src), p.instrPos(with), p.FuncName(f), "WithRNG condition", "built whenever "+spec.src+" is non-nil", "WithRNG("+spec.src+") is built under a condition other than "+spec.src+" != nil")
 	}
 }
 
